@@ -43,6 +43,7 @@ type Cfg struct {
 	Sess    Sess     `json:"sess"`
 	Est     string   `json:"est"`    // resumed: "Honest" or the deviation of the peer that established the session
 	EstEnc  string   `json:"estEnc"` // resumed: own encryption level of the establishing handshake
+	Src     string   `json:"src"`    // "base": the policy is the Authenticator's config; "hook": it comes from ServerConfigForCommand over a weaker base config
 }
 
 type Outcome struct {
@@ -291,6 +292,26 @@ func handshake(c Cfg, sc *security.SecurityConfig, pc peer.Config) runResult {
 	ctx, cancel := context.WithTimeout(context.Background(), Deadline)
 	defer cancel()
 	a := security.NewAuthenticator(sc, st)
+	if c.Role == "server" && c.Src == "hook" {
+		// The way server.Server does it: the connection's Authenticator is built on
+		// the server's base configuration and the policy of the command named in the
+		// client's ad is supplied by the ServerConfigForCommand hook. The base policy
+		// is deliberately weak, so only the hook's levels can be what gets enforced.
+		policy := sc
+		base := &security.SecurityConfig{
+			AuthMethods: []security.AuthMethod{security.AuthClaimToBe}, Authentication: security.SecurityOptional,
+			CryptoMethods: []security.CryptoMethod{security.CryptoAES}, Encryption: security.SecurityOptional,
+			Integrity: security.SecurityOptional, Command: appCommand, SessionCache: sc.SessionCache,
+		}
+		a = security.NewAuthenticator(base, st)
+		a.ServerConfigForCommand = func(command int) *security.SecurityConfig {
+			if command != appCommand {
+				return nil
+			}
+			cp := *policy
+			return &cp
+		}
+	}
 	if c.Role == "client" {
 		res.neg, res.err = a.ClientHandshake(ctx)
 	} else {
@@ -562,6 +583,9 @@ func Signature(g *Group, form string, d *Diff) map[string]string {
 		"deviation": devName(g.Devs), "policy": PolicyClass(g.Cfg), "invariant": d.Invariant}
 	if form != "" {
 		sig["answerForm"] = form
+	}
+	if g.Cfg.Src == "hook" {
+		sig["policySource"] = "hook"
 	}
 	if c := g.Cfg; c.Mode == "resumed" && (c.Est != "Honest" || c.EstEnc != c.Enc) {
 		sig["establishment"] = c.Est + "/" + strings.ToLower(c.EstEnc)
